@@ -4,7 +4,7 @@
 
 The registry is EMPTY (every lookup returns None, which the emitted `if service :` guard expects) unless the
 environment variable FP_CHECKSUM=sum is set; then every name resolves to a service whose `calc(buffer)` is the sum
-of all bytes currently in the buffer (start of the buffer to the write position) modulo 256, as a plain int.
+of all bytes currently in the buffer (start of the buffer to the write position) modulo 128, as a plain int.
 """
 import os
 
@@ -27,7 +27,7 @@ class SumChecksumService(ChecksumService):
         return self._name
 
     def calc(self, buffer):
-        return sum(buffer.to_bytes()) % 256
+        return sum(buffer.to_bytes()) % 128   # modulo 128: fits every result type, signed ones included
 
 
 def create_checksum_service(name):
